@@ -324,7 +324,9 @@ impl Property for C19 {
         let t = texts[0];
         // ---- fidelity
         let got_lines = text_lines(t, c.vertical, c.pre);
-        let trim = |s: &str| s.trim_end().to_string();
+        // text given through the attribute is kept to the last blank; content carriers pass through the XML writer, which trims blanks before a newline
+        let strict_ws = c.carrier % 3 == 0 && !(want.lines().count() <= 1 && want.contains('\n'));
+        let trim = |s: &str| if strict_ws { s.to_string() } else { s.trim_end().to_string() };
         let want_lines: Vec<String> = {
             let l: Vec<&str> = want.lines().collect();
             if l.len() <= 1 {
@@ -336,7 +338,8 @@ impl Property for C19 {
         };
         // an author line consisting of a lone ZWSP is indistinguishable from an empty line (which is rendered as a ZWSP)
         let want_lines: Vec<String> = want_lines.into_iter().map(|l| if l == "\u{200B}" { String::new() } else if c.pre { l.replace('\u{A0}', " ") } else { l }).collect();
-        let got_cmp: Vec<String> = got_lines.iter().map(|s| trim(s)).map(|l| if l == "\u{200B}" { String::new() } else { l }).collect();
+        let single = want_lines.len() <= 1;
+        let got_cmp: Vec<String> = got_lines.iter().map(|s| if single { trim(s.trim_end_matches('\n')) } else { trim(s) }).map(|l| if l == "\u{200B}" { String::new() } else { l }).collect();
         if got_cmp != want_lines {
             let special = if want.contains('\n') { "multiline" } else if want.contains(['&', '<', '>', '"']) { "xml-special" } else { "plain" };
             return Verdict::fail(
